@@ -309,6 +309,34 @@ func init() {
 								}
 							}
 							if !fok {
+								// ... and within an entity the list of features is read at one moment, the
+								// information of each feature at another: the set of features (address, type,
+								// role) must be the one of some moment of the handling, and so must each
+								// feature's line (description, operations)
+								setOK, linesOK := false, true
+								for i := lo; i <= hi && i < len(d.snaps); i++ {
+									if _, f := treeParts(d.snaps[i].tree); featureSet(f[ent]) == featureSet(fl) {
+										setOK = true
+									}
+								}
+								for _, line := range strings.Split(fl, "\n") {
+									if line == "" {
+										continue
+									}
+									lok := false
+									for i := lo; i <= hi && i < len(d.snaps); i++ {
+										if _, f := treeParts(d.snaps[i].tree); strings.Contains("\n"+f[ent], "\n"+line+"\n") {
+											lok = true
+										}
+									}
+									linesOK = linesOK && lok
+								}
+								fok = setOK && linesOK
+								if fok {
+									w.Probe("c07-reply-mixes-moments-within-an-entity")
+								}
+							}
+							if !fok {
 								ok = false
 							}
 						}
@@ -453,4 +481,17 @@ func treeParts(tree string) (string, map[string]string) {
 		}
 	}
 	return ents, feats
+}
+
+// featureSet reduces the feature lines of an entity to the identities of its features.
+//
+//go:norace
+func featureSet(lines string) string {
+	out := ""
+	for _, l := range strings.Split(lines, "\n") {
+		if i := strings.Index(l, " desc="); i > 0 {
+			out += l[:i] + "\n"
+		}
+	}
+	return out
 }
